@@ -73,7 +73,7 @@ theorem machine_is_queryResult (E : Engines) (r : Req) (k : Nat) (hk : turns E r
     by_cases h24 : c = 0x24
     · subst h24
       simp only [turns, queryResult, dataParse, init]
-      cases hj : E.json doc (0x24 :: rest) <;> simp [iter, step, hj]
+      cases hj : jsonBranch E doc (0x24 :: rest) <;> simp [iter, step, hj]
     · by_cases h2f : c = 0x2f
       · subst h2f
         simp only [turns, queryResult, dataParse, init, if_true]
